@@ -1025,3 +1025,149 @@ def replay(rep):  # noqa: F811
         print('replay: %s' % ('violation reproduced on the real code' if bad else 'not reproduced'))
         return 1 if bad else 0
     return _rp10(rep)
+
+
+# ---- listing (C17): `units for` / `factorize` checked against the evaluator itself (bounded stand-in / replay) ----
+_LIST_Q = [('force', 'kg m / s^2'), ('velocity', 'm/s'), ('length', '3 m'), ('energy', 'J'), ('frequency', '1/s'), ('area', 'm^2'), ('pressure', 'Pa'),
+           ('time', 's'), ('angle', 'radian'), ('power', 'W'), ('charge', 'A s'), ('information', 'byte'), ('acceleration', 'm/s^2'), ('1', '7')]
+
+
+def _dims_of(line):
+    (ln, text, raw) = run_queries([line])[0]
+    if raw is None:
+        return None
+    return (raw.split(' | ') + [''])[1].strip()
+
+
+def _dims_dict(d):
+    out = {}
+    for p in d.split(','):
+        p = p.strip()
+        if p:
+            k, v = p.rsplit(':', 1)
+            out[k] = int(v)
+    return out
+
+
+_qd_cache = {}
+
+
+def _quantity_dims(name):
+    """dimensionality registered under a quantity name, read off `units for <name>`"""
+    if name not in _qd_cache:
+        (ln, text, raw) = run_queries(['units for %s' % name])[0]
+        ul = [l for l in text.splitlines() if l.startswith('UNITSFOR ')]
+        if not ul:
+            _qd_cache[name] = None
+        else:
+            rest = ul[0][9:]
+            _qd_cache[name] = _dims_dict(rest.rsplit(' | ', 1)[1]) if ' | ' in rest else {}
+    return _qd_cache[name]
+
+
+def _listing_witness():
+    if build_core() != 0:
+        return None
+
+    def bad(line, expected, text, why):
+        return {'replayer': 'listing', 'input': {'query': line, 'expected': expected}, 'output': text, 'why': why, 'cmd': '%s %r' % (QUERY_BIN, line)}
+    for qname, expr in _LIST_Q:
+        replies = {}
+        for x in (qname, expr):
+            line = 'units for %s' % x
+            (ln, text, raw) = run_queries([line])[0]
+            ul = [l for l in text.splitlines() if l.startswith('UNITSFOR ')]
+            if not ul:
+                if qname == '1':
+                    continue
+                return bad(line, 'a unit listing', text, 'expected a unit listing, got %r' % (text.splitlines() or [''])[0])
+            rest = ul[0][9:]
+            body, dims = rest.rsplit(' | ', 1) if ' | ' in rest else (rest.rstrip('| ').rstrip(), '')
+            groups = [g.split('=', 1) for g in body.split(';') if g]
+            names = [n for g in groups for n in g[1].split(',') if n]
+            if len(set(names)) != len(names):
+                dup = [n for n in names if names.count(n) > 1][0]
+                return bad(line, 'each unit once', text, 'the unit %s is listed %d times' % (dup, names.count(dup)))
+            cats = [g[0] for g in groups]
+            if len(set(cats)) != len(cats):
+                return bad(line, 'one group per category', text, 'the category %s appears in two groups' % [c for c in cats if cats.count(c) > 1][0])
+            for n in names[:60]:
+                d = _dims_of('1 %s' % n)
+                if d is not None and _norm_dims(d) != _norm_dims(dims):
+                    return bad(line, 'only units of dimensionality %s' % dims, text, 'the listed unit %s has dimensionality %s, not %s' % (n, d, dims))
+            replies[x] = (sorted(names), dims)
+        if len(replies) == 2 and replies[qname] != replies[expr]:
+            a, b = replies[qname][0], replies[expr][0]
+            diff = sorted(set(a) ^ set(b))[:5]
+            return bad('units for %s' % expr, 'the same answer as `units for %s`' % qname, '', 'quantity name and expression disagree: %s' % diff)
+    for qname, expr in _LIST_Q[:9]:
+        replies = {}
+        for x in (qname, expr):
+            line = 'factorize %s' % x
+            (ln, text, raw) = run_queries([line])[0]
+            fl = [l for l in text.splitlines() if l.startswith('FACTORIZE')]
+            if not fl:
+                return bad(line, 'a factorization', text, 'expected factorizations, got %r' % (text.splitlines() or [''])[0])
+            fs = [f for f in fl[0][9:].strip().split(';') if f]
+            if len(set(fs)) != len(fs):
+                return bad(line, 'no duplicate products', text, 'a product is listed twice: %s' % [f for f in fs if fs.count(f) > 1][0])
+            want = _dims_of('1 %s' % (expr if qname != '1' else '7'))
+            for f in fs:
+                tot = {}
+                okp = True
+                for t in (f.split('*') if f else []):
+                    n, c = t.split('^')
+                    d = _quantity_dims(n)
+                    if d is None:
+                        okp = False
+                        break
+                    for k2, v2 in d.items():
+                        tot[k2] = tot.get(k2, 0) + v2 * int(c)
+                tot = {k2: v2 for k2, v2 in tot.items() if v2 != 0}
+                if okp and want is not None and tot != _dims_dict(want):
+                    return bad(line, 'products of dimensionality %s' % want, text, 'the product %s multiplies out to %s, not %s' % (f, tot, want))
+            replies[x] = sorted(fs)
+        if replies[qname] != replies[expr]:
+            return bad('factorize %s' % expr, 'the same answer as `factorize %s`' % qname, '', 'quantity name and expression disagree: %s vs %s' % (replies[qname][:3], replies[expr][:3]))
+    return None
+
+
+_sf11 = search_family
+
+
+def search_family(fam, prop):  # noqa: F811
+    if fam == 'listing':
+        return _listing_witness()
+    return _sf11(fam, prop)
+
+
+_fw12 = find_witness
+
+
+def find_witness(o, rep):  # noqa: F811
+    slot = o.get('slot') or ''
+    if slot.startswith('units_for::') or slot.startswith('factorize') or o.get('unit') == 'listing':
+        w = _listing_witness()
+        if w:
+            return w
+    return _fw12(o, rep)
+
+
+_rp12 = replay
+
+
+def replay(rep):  # noqa: F811
+    w = rep.get('replay') or {}
+    if w.get('replayer') == 'listing':
+        if build_core() != 0:
+            return 0
+        i = rep['input']
+        (ln, text, raw) = run_queries([i['query']])[0]
+        print('> ' + i['query'])
+        print(text[:2000])
+        print('expected: ' + i['expected'])
+        w2 = _listing_witness()
+        bad = bool(w2 and w2['input']['query'] == i['query'])
+        print('replay: %s' % ('violation reproduced on the real code' if bad else 'not reproduced'))
+        return 1 if bad else 0
+    return _rp12(rep)
